@@ -203,7 +203,7 @@ def nests_json(case):
     for m in n['list']:
         form = m.get('form') or ('tup' if n['syntax'] == 'tuple' else 'obj')
         if cnl:
-            specs.append({'form': form, 'mu': f2b(m['mu']['v']), 'alphas': [[a, f2b(x)] for a, x, _ in m['alphas']]})
+            specs.append({'form': form, 'mu': f2b(m['mu']['v']), 'alphas': [[t[0], f2b(t[1])] for t in m['alphas']]})
         else:
             specs.append({'form': form, 'mu': f2b(m['mu']['v']), 'alts': m['alts']})
     cs = n['choice_set'] if n['syntax'] == 'object' else None
